@@ -470,6 +470,21 @@ func c11Unit(c *RunCtx, unit int) {
 				c.Stats.Count("programs-putting-back-the-request-start-value")
 			}
 		}
+		if (i+unit)%7 == 3 {
+			// a put of the empty string is a put (the key is present, with an empty value, on the next request), not a
+			// delete: every third put of such a program carries ""
+			n := 0
+			for k := range prog {
+				if o := &prog[k]; o.Op == "putS" || o.Op == "putC" {
+					if n++; n%3 == 1 {
+						o.V = ""
+					}
+				}
+			}
+			if n > 0 {
+				c.Stats.Count("programs-putting-the-empty-string")
+			}
+		}
 		// stores that answer nil for a client they hold nothing for (every third program; in half of those
 		// the client arrives without a session, or without cookies, at all). Not drawn from r: the programs
 		// of earlier seeds stay what they were.
@@ -555,7 +570,7 @@ func min(a, b int) int {
 func init() {
 	register(&Check{
 		ID: "C11", Level: "exploration",
-		Rule:  "random handler programs (0-25 operations over putS/delS/delAllS/putC/delC/getS/getC/WriteHeader (final codes, 100/103 informational, 101)/Write/io.Copy (the base writer implements io.ReaderFrom like net/http's) and nesting the writer in wrappers exposing UnderlyingResponseWriter() or Unwrap(), depth <= 4; one program in five runs directly inside a second Authboss instance's LoadClientStateMiddleware, whose stores must receive nothing; one in five uses write-behind stores that keep the event slice they are handed (what they hold at the end of the request is what was delivered); in 1/6 of the programs one of the stores fails its first WriteState and the handler recovers and carries on; every third program (never a nested one) runs with stores that answer a nil state, not an empty one, for a client they hold nothing for, and in half of those the client arrives without a session or without cookies) executed by a handler behind the real LoadClientStateMiddleware with two recording stores and a recording base writer sharing one sequence counter. Offline checker over the log: each store receives <= 1 delivery, exactly the operations made for it before the first write, same order/keys/values, never the other store's; every delivery precedes the first header or body byte released to the base writer; operations after the first write are never delivered; every read returns the request-start value whatever was put earlier. Every fourth program writes back, in every other put of a key the request started with, the request-start value; every fifth contains a failed connection upgrade (Hijack answered with an error), after which the program carries on. Every fifth program calls http.ResponseController (SetWriteDeadline / EnableFullDuplex) somewhere: it walks the Unwrap chain, releases no byte and delivers nothing. distinct_nontrivial = distinct program shapes (#ops, #ops before first write, #writes, wrapper depth, kind of first write).",
+		Rule:  "random handler programs (0-25 operations over putS/delS/delAllS/putC/delC/getS/getC/WriteHeader (final codes, 100/103 informational, 101)/Write/io.Copy (the base writer implements io.ReaderFrom like net/http's) and nesting the writer in wrappers exposing UnderlyingResponseWriter() or Unwrap(), depth <= 4; one program in five runs directly inside a second Authboss instance's LoadClientStateMiddleware, whose stores must receive nothing; one in five uses write-behind stores that keep the event slice they are handed (what they hold at the end of the request is what was delivered); in 1/6 of the programs one of the stores fails its first WriteState and the handler recovers and carries on; every third program (never a nested one) runs with stores that answer a nil state, not an empty one, for a client they hold nothing for, and in half of those the client arrives without a session or without cookies) executed by a handler behind the real LoadClientStateMiddleware with two recording stores and a recording base writer sharing one sequence counter. Offline checker over the log: each store receives <= 1 delivery, exactly the operations made for it before the first write, same order/keys/values, never the other store's; every delivery precedes the first header or body byte released to the base writer; operations after the first write are never delivered; every read returns the request-start value whatever was put earlier. Every fourth program writes back, in every other put of a key the request started with, the request-start value; every fifth contains a failed connection upgrade (Hijack answered with an error), after which the program carries on. Every seventh program puts the empty string in every third put (a put, not a delete). Every fifth program calls http.ResponseController (SetWriteDeadline / EnableFullDuplex) somewhere: it walks the Unwrap chain, releases no byte and delivers nothing. distinct_nontrivial = distinct program shapes (#ops, #ops before first write, #writes, wrapper depth, kind of first write).",
 		Units: func(t string) int { return tierN(t, 64, 256) },
 		Run:   c11Unit,
 		Floors: func(t string) map[string]int {
